@@ -478,7 +478,7 @@ example :
     (run 200 c!"t.sd" c!"print(9_223_372_036_854_775_807 + 0)\nprint(-7 / 2)\nprint(-7 % 2)\nx := 3037000499\nx *= x\nprint(x)\n").out =
       [c!"9223372036854775807", c!"-3", c!"-1", c!"9223372030926249001"] ∧
     (run 200 c!"t.sd" c!"print((0 - 9223372036854775807 - 1) / -1)\n").stderr =
-      c!"t.sd:1:38: '-9223372036854775808 / -1' caused an integer overflow\n" ∧
+      c!"t.sd:1:37: '-9223372036854775808 / -1' caused an integer overflow\n" ∧
     (run 200 c!"t.sd" c!"print(1 % 0)\n").stderr = c!"t.sd:1:9: '1 % 0' caused an integer overflow\n" := by
   decide +kernel
 
